@@ -12,6 +12,7 @@ import (
 	"sync"
 	"testing"
 
+	"github.com/gcash/bchd/chaincfg"
 	"github.com/gcash/bchutil"
 	"pgregory.net/rapid"
 )
@@ -395,7 +396,7 @@ func genC02(t *rapid.T) c02Case {
 	case 4, 5: // B: Base58Check
 		var ver byte
 		if rapid.Bool().Draw(t, "regver") {
-			ver = rapid.SampledFrom([]byte{0x00, 0x05, 0x6f, 0xc4, 0x3f, 0x7b, 0x80, 0xef, 0x64}).Draw(t, "ver")
+			ver = rapid.SampledFrom([]byte{0x00, 0x05, 0x6f, 0xc4, 0x3f, 0x7b, 0x80, 0xef, 0x64, 0xa1, 0xa2}).Draw(t, "ver")
 		} else {
 			ver = rapid.Byte().Draw(t, "ver")
 		}
@@ -606,6 +607,28 @@ func TestC02(t *testing.T) {
 		refSelfCodecs(ev)
 		if len(ev.harnessErrors) > 0 {
 			return
+		}
+		// two custom networks are registered (process-wide; this process runs C02 only) whose legacy version
+		// bytes collide: 0xa1 is P2PKH on one and P2SH on the other, 0xa2 the other way round.  A legacy string
+		// with such a byte cannot be attributed to one kind and must not be accepted as either.
+		custA, custB := chaincfg.MainNetParams, chaincfg.MainNetParams
+		custA.Name, custA.Net, custA.CashAddressPrefix, custA.SlpAddressPrefix = "custa", 0xa1a1a1a1, "bchcusta", "slpcusta"
+		custA.LegacyPubKeyHashAddrID, custA.LegacyScriptHashAddrID, custA.PrivateKeyID = 0xa1, 0xa2, 0xa3
+		custA.HDPrivateKeyID, custA.HDPublicKeyID = [4]byte{0x0a, 1, 1, 1}, [4]byte{0x0a, 1, 1, 2}
+		custB.Name, custB.Net, custB.CashAddressPrefix, custB.SlpAddressPrefix = "custb", 0xb2b2b2b2, "bchcustb", "slpcustb"
+		custB.LegacyPubKeyHashAddrID, custB.LegacyScriptHashAddrID, custB.PrivateKeyID = 0xa2, 0xa1, 0xa4
+		custB.HDPrivateKeyID, custB.HDPublicKeyID = [4]byte{0x0b, 1, 1, 1}, [4]byte{0x0b, 1, 1, 2}
+		if err := chaincfg.Register(&custA); err != nil {
+			ev.HarnessError("cannot register custom network: %v", err)
+			return
+		}
+		if err := chaincfg.Register(&custB); err != nil {
+			ev.HarnessError("cannot register custom network: %v", err)
+			return
+		}
+		nets = append(nets, netInfo{"custa", &custA}, netInfo{"custb", &custB})
+		for _, ver := range []byte{0xa1, 0xa2} {
+			kC02.One(ev, c02Case{S: refB58CheckEncode(bytes.Repeat([]byte{0x33}, 20), ver), Class: "B"})
 		}
 		// regression cases for defects found by this check (see KNOWN_FINDINGS.txt)
 		h20 := bytes.Repeat([]byte{0x11}, 20)
